@@ -5,21 +5,8 @@
 //!   vh distinct f1.hashes f2.hashes ...
 //!   vh selftest
 
-#![allow(dead_code)]
-
-mod cbor;
-mod dispatch;
-mod mock;
-mod mon;
-mod mutate;
-mod project;
-mod report;
-mod resp;
-mod rng;
-mod schema;
-mod util;
-
-use report::{Rep, Tier};
+use vh::report::{Rep, Tier};
+use vh::{cbor, mon, report, util};
 
 fn arg<'a>(args: &'a [String], name: &str) -> Option<&'a str> {
     args.iter().position(|a| a == name).and_then(|i| args.get(i + 1)).map(|s| s.as_str())
@@ -45,6 +32,7 @@ fn dispatch(rep: &mut Rep) -> bool {
         "C06" => mon::c06::run(rep),
         "C07" => mon::c07::run(rep),
         "C08" => mon::c08::run(rep),
+        #[cfg(feature = "dense")]
         "C09" => mon::c09::run(rep),
         "C10" => mon::c10::run(rep),
         "C11" => mon::c11::run(rep),
@@ -53,6 +41,7 @@ fn dispatch(rep: &mut Rep) -> bool {
         "C14" => mon::c14::run(rep),
         "C15" => mon::c15::run(rep),
         "C16" => mon::c16::run(rep),
+        #[cfg(feature = "dense")]
         "C17" => mon::c17::run(rep),
         "C18" => mon::c18::run(rep),
         "C19" => mon::c19::run(rep),
@@ -71,6 +60,56 @@ fn main() {
         }
         "distinct" => {
             println!("{}", report::distinct_files(&args[2..]));
+        }
+        "judge-bytes" => {
+            // judge raw inputs (files) with the arbitrary-input oracle; exit 1 if any violates
+            report::install_panic_hook();
+            let mut bad = 0;
+            for f in &args[2..] {
+                let bytes = std::fs::read(f).expect("read input");
+                for (sig, detail) in vh::fuzz::judge_bytes(&bytes) {
+                    println!("JUDGE {} {} :: {}", f, sig, detail.chars().take(400).collect::<String>());
+                    bad += 1;
+                }
+            }
+            std::process::exit(if bad > 0 { 1 } else { 0 });
+        }
+        "corpus" => {
+            // seed corpus + dictionary for the libFuzzer stage
+            let dir = args.get(2).expect("dir").clone();
+            let n: u64 = arg(&args, "--n").and_then(|s| s.parse().ok()).unwrap_or(600);
+            let seed: u64 = arg(&args, "--seed").and_then(|s| s.parse().ok()).unwrap_or(1);
+            std::fs::create_dir_all(&dir).expect("mkdir");
+            let mut k = 0;
+            for (cmd, _name, s) in vh::schema::commands() {
+                for i in 0..n {
+                    let mut rng = vh::rng::Rng::derive(seed, "corpus", (cmd as u64) << 32 | i);
+                    let mut g = vh::schema::G::new(&mut rng);
+                    g.small = i % 4 != 0;
+                    if i % 3 == 0 {
+                        g.top_mask = Some(u64::MAX);
+                        g.nested = vh::schema::Nested::All;
+                    }
+                    let v = vh::schema::gen_message(&s, &mut g);
+                    let mut b = vec![if cmd == 0x0a && i % 5 == 0 { 0x41 } else { cmd }];
+                    b.extend_from_slice(&cbor::encode(&v));
+                    std::fs::write(format!("{}/seed-{:05}", dir, k), b).expect("write");
+                    k += 1;
+                }
+            }
+            let dict = [
+                "id", "name", "type", "icon", "url", "displayName", "public-key", "rk", "up", "uv", "alg", "hmac-secret", "credProtect",
+                "largeBlobKey", "thirdPartyPayment", "packed", "none", "tpm", "hmac-secret-mc", "credBlob", "minPinLength", "prf",
+            ];
+            let mut d = String::new();
+            for w in dict {
+                d.push_str(&format!("\"{}\"\n", w));
+            }
+            for b in ["\\xa0", "\\xf4", "\\xf5", "\\xf6", "\\x18\\x18", "\\x19\\x01\\x00", "\\x1a\\x00\\x01\\x00\\x00", "\\x58\\x20", "\\x78\\x40", "\\x26", "\\x27", "\\x38\\x18"] {
+                d.push_str(&format!("\"{}\"\n", b));
+            }
+            std::fs::write(format!("{}.dict", dir), d).expect("dict");
+            println!("{} seeds", k);
         }
         "cfg" => {
             println!("{} {}", util::cfg_name(), build_name());
